@@ -850,8 +850,8 @@ func TestC33(t *testing.T) {
 		}
 		pc.Close()
 	}
-	nPipe := r.N(10_000, 400_000)
-	nLn := r.N(2_500, 100_000)
+	nPipe := r.N(10_000, 240_000)
+	nLn := r.N(2_500, 60_000)
 	total := nPipe + nLn
 	var hung, pipeNs, lnNs atomic.Int64
 	mon.Parallel(total, 0, func(i int) {
